@@ -766,8 +766,12 @@ def _ann(x):
 def impl_sections(text: str, parent_obj, style: str, opts: dict) -> list:
     import griffe
     ds = griffe.Docstring(text, parent=parent_obj, lineno=1)
+    return canon_sections(ds.parse(style, **opts))
+
+
+def canon_sections(sections) -> list:
     out = []
-    for s in ds.parse(style, **opts):
+    for s in sections:
         d = s.as_dict()
         v = d["value"]
         if isinstance(v, list):
@@ -1427,7 +1431,9 @@ RULE = ("seeded generation of written structures: parent (function with 0-4 anno
         "parameter and attribute, type fields next to their field or anywhere. Second stream per style: perturbed renderings (dropped/added blank "
         "lines, shifted indentation, removed colons, damaged dash lines and item heads, duplicated or foreign fields) for model-vs-code only. "
         "Third stream per style: the same structures over arbitrary text (vertical tab, form feed, FS/GS/RS, lone CR, NEL, U+2028/9, non-ASCII "
-        "letters inside words). non-trivial = at least one non-text section; distinct by (style, options, text)")
+        "letters inside words). Histories: docstrings created by griffe.visit with one shared docstring_options dict per load (and some on their own), "
+        "3-9 parse / .parsed calls with per-call options, each compared with a fresh Docstring given the same configured and per-call options; "
+        "configured dicts must stay unchanged. non-trivial = at least one non-text section; distinct by (style, options, text)")
 TRUSTED = ["abstraction: harness/props/c13.py ctx_sexp / wsecs_sexp / nsecs_sexp / xfields_sexp map the generated parent and written structure to the model's "
            "pctx / list wsec / list nsec / list xfield; doc_lines = inspect.cleandoc(text.rstrip()).split('\\n') is the specification of the parsers' input lines",
            "translator harness/props/c13.py:translate (keyword tables from the _section_kind dict literals; regex texts incl. the inline default-value "
@@ -1992,6 +1998,143 @@ def explore_sphinx(ctx, n: int, with_model: bool = True, exotic: float = 0.0):
                             _case_json("sphinx", o, d, t))
 
 
+# ------------------------------------------------------------------ histories: parse calls must not leave traces
+def docstring_source(parent: dict, text: str):
+    """Source of a module whose documented object carries `text` as its docstring (a string literal as first statement,
+    the way it stands in a file), and the path to that object; None for parents that have no source."""
+    k = parent["kind"]
+    if k == "none":
+        return None
+    src, path = parent_source(parent)
+    lit = repr(text)
+    if k in ("func", "gen", "init", "prop"):
+        pad = "    " if k in ("func", "gen") else "        "
+        assert src.endswith(": ...\n")
+        return src[:-len(": ...\n")] + ":\n" + pad + lit + "\n", path
+    if k == "cls":
+        head, rest = src.split("\n", 1)
+        return head + "\n    " + lit + "\n" + rest, path
+    return lit + "\n" + src, path            # module docstring
+
+
+def history_options(rng, style: str) -> dict:
+    """Per-call / configured options: documented options of the style, mostly set to their NON-default value."""
+    names = {"google": GOOGLE_OPTS[:7], "numpy": NUMPY_OPTS, "sphinx": SPHINX_OPTS}[style]
+    out = {}
+    for o in rng.sample(names, rng.randint(1, min(3, len(names)))):
+        out[o] = (o not in DEFAULT_TRUE) if rng.random() < 0.8 else (o in DEFAULT_TRUE)
+    return out
+
+
+def gen_history(ctx, g: Gen) -> dict:
+    """A history: docstrings created the way the loader creates them (every Docstring of a load is handed the SAME
+    `docstring_options` dict) and some created on their own, then a sequence of parse calls with per-call options."""
+    rng = ctx.rng
+    style = rng.choice(["google", "google", "numpy", "sphinx"])
+    loads = []
+    for _ in range(rng.randint(1, 2)):
+        configured = history_options(rng, style) if rng.random() < 0.75 else None
+        modules = []
+        for _ in range(rng.randint(1, 3)):
+            for _try in range(20):
+                if style == "sphinx":
+                    doc = gen_sphinx_doc(g)
+                    text = "\n".join(render_sphinx(doc))
+                else:
+                    doc = gen_doc(g, style, {o: v for o, v in random_opts(rng, style).items() if o in GOOGLE_OPTS[:6]})
+                    text = "\n".join(render_google(doc) if style == "google" else render_numpy(doc))
+                sp = docstring_source(doc["parent"], text)
+                if sp is not None:
+                    break
+            else:
+                continue
+            modules.append({"source": sp[0], "path": list(sp[1]), "text": text})
+        loads.append({"configured": configured, "modules": modules})
+    alone = []
+    for _ in range(rng.randint(0, 2)):
+        doc = gen_doc(g, style, {}) if style != "sphinx" else gen_sphinx_doc(g)
+        text = "\n".join(render_sphinx(doc) if style == "sphinx" else render_google(doc) if style == "google" else render_numpy(doc))
+        alone.append({"text": text, "configured": history_options(rng, style) if rng.random() < 0.5 else None})
+    n_docs = sum(len(l["modules"]) for l in loads) + len(alone)
+    steps = []
+    for _ in range(rng.randint(3, 9)):
+        r = rng.random()
+        steps.append({"doc": rng.randrange(max(1, n_docs)),
+                      "options": history_options(rng, style) if r < 0.55 else {},
+                      "explicit_parser": rng.random() < 0.5,
+                      "parsed_property": r > 0.9})
+    return {"style": style, "loads": loads, "alone": alone, "steps": steps}
+
+
+def run_history(h: dict) -> list:
+    """Replay a history on the implementation.  Every call must give what a FRESH Docstring (same text, parent, parser and a
+    private copy of the configured options) gives for the same call, and no configured dict may change.  -> mismatches."""
+    import copy
+    import griffe
+    style = h["style"]
+    docs = []                       # (docstring object, raw text, snapshot of the configured options, load index)
+    shared = []
+    for li, load in enumerate(h["loads"]):
+        cfg = copy.deepcopy(load["configured"])          # ONE dict object for the whole load, as in GriffeLoader
+        shared.append((cfg, copy.deepcopy(cfg)))
+        for mi, m in enumerate(load["modules"]):
+            mod = griffe.visit(f"m{li}_{mi}", filepath=None, code=m["source"], docstring_parser=griffe.Parser(style), docstring_options=cfg)
+            obj = mod
+            for nm in m["path"]:
+                obj = obj.members[nm]
+            if obj.docstring is None:
+                return [{"harness": "no docstring on generated object", "source": m["source"]}]
+            docs.append((obj.docstring, m["text"], copy.deepcopy(cfg), li))
+    for a in h["alone"]:
+        cfg = copy.deepcopy(a["configured"])
+        docs.append((griffe.Docstring(a["text"], lineno=1, parser=griffe.Parser(style), parser_options=cfg), a["text"], copy.deepcopy(cfg), None))
+    bad = []
+    if not docs:
+        return bad
+    for si, st in enumerate(h["steps"]):
+        d, text, cfg0, li = docs[st["doc"] % len(docs)]
+        fresh = griffe.Docstring(text, lineno=d.lineno, endlineno=d.endlineno, parent=d.parent, parser=d.parser,
+                                 parser_options=copy.deepcopy(cfg0))
+        try:
+            if st["parsed_property"]:
+                got, want = canon_sections(d.parsed), canon_sections(fresh.parse())
+            elif st["explicit_parser"]:
+                got, want = canon_sections(d.parse(style, **st["options"])), canon_sections(fresh.parse(style, **st["options"]))
+            else:
+                got, want = canon_sections(d.parse(**st["options"])), canon_sections(fresh.parse(**st["options"]))
+        except Exception as e:  # noqa: BLE001
+            bad.append({"step": si, "exception": f"{type(e).__name__}: {e}"[:200]})
+            continue
+        if got != want:
+            first = next((i for i, (a, b) in enumerate(zip(got, want)) if a != b), min(len(got), len(want)))
+            bad.append({"step": si, "text": text, "after_earlier_calls": got[first:first + 1], "fresh_docstring": want[first:first + 1]})
+    for li, (cfg, snap) in enumerate(shared):
+        if cfg != snap:
+            bad.append({"configured_options_of_load": li, "were": snap, "are_now": cfg})
+    for d, text, cfg0, li in docs:
+        if li is None and d.parser_options != (cfg0 or {}):
+            bad.append({"configured_options_of_docstring": text[:60], "were": cfg0, "are_now": d.parser_options})
+    return bad
+
+
+def explore_histories(ctx, n: int):
+    g = Gen(ctx.rng)
+    for _ in range(n):
+        h = gen_history(ctx, g)
+        bad = run_history(h)
+        ctx.count("history_cases")
+        ctx.observe("history_style", h["style"])
+        ctx.observe("history_steps", len(h["steps"]))
+        ctx.observe("history_shared_configured", sum(1 for l in h["loads"] if l["configured"]))
+        ctx.observe("history_calls_with_options", sum(1 for s_ in h["steps"] if s_["options"]))
+        ctx.case({"history": [(s_["doc"], sorted(s_["options"].items())) for s_ in h["steps"]], "style": h["style"],
+                  "texts": [m["text"] for l in h["loads"] for m in l["modules"]]}, True)
+        if bad:
+            text = next((b["text"] for b in bad if "text" in b), "")
+            ctx.property_failure({"style": h["style"], "options": {}, "parent": {"kind": "none"}, "text": text, "history": h},
+                                 {"history_dependence": bad[:4]})
+
+
 def explore(ctx):
     logging.disable(logging.CRITICAL)
     replay_witnesses(ctx)
@@ -2007,6 +2150,8 @@ def explore(ctx):
     explore_google(ctx, ctx.budget(300, 3000), exotic=0.12)
     explore_numpy(ctx, ctx.budget(300, 3000), exotic=0.12)
     explore_sphinx(ctx, ctx.budget(300, 3000), exotic=0.12)
+    # parse calls leave no trace: histories of calls over docstrings that share one configured-options dict (as in a load)
+    explore_histories(ctx, ctx.budget(150, 1500))
     if not ctx.quick:
         g = Gen(ctx.rng)
         sample = []
@@ -2025,12 +2170,17 @@ def search(ctx):
     explore_google(ctx, 1000, with_model=False, exotic=0.12)
     explore_numpy(ctx, 1000, exotic=0.12, with_model=False)
     explore_sphinx(ctx, 1000, with_model=False, exotic=0.12)
+    explore_histories(ctx, 600)
 
 
 def replay(ctx, data):
     logging.disable(logging.CRITICAL)
     case = data.get("failing_input") or {}
     text = case.get("text")
+    if case.get("history"):
+        print("history:", json.dumps(case["history"], indent=1)[:6000])
+        print("history dependence now:", json.dumps(run_history(case["history"]), indent=1)[:4000])
+        return 0
     if text is None:
         print("replay names no input:", data.get("no_longer_checks"))
         return 0
